@@ -411,43 +411,47 @@ def r07_3(ctx):
 def r07_5(ctx):
     lib = ctx.lib
     n = 0
+    halves = set()
     for b in lib.bodies:
         sites = [(bb, t) for bb, t in b.calls() if (fn_of(t) or {}).get("name") == "from_u32_unchecked"]
         if not sites:
             continue
         iv = ival.for_body(b)
-        # subtractions of a surrogate base from a 16-bit unit
+        feeding0 = _feeding_lines(b, sites)
+        # subtractions of a constant from a 16-bit unit on the way into the unchecked conversion: each must take a
+        # surrogate base (0xD800 from a lead unit, 0xDC00 from a trail unit), whichever way the constant is spelled
+        # (literal, `RANGE.start()` of a constant range: `u16 - &u16` through the operator trait)
+        subs = []  # (line, minuend intervals, base)
         for bi in sorted(b.reach()):
             for si, s in enumerate(b.blocks[bi]["stmts"]):
                 if s["k"] != "assign" or s["rv"]["k"] != "binop" or not s["rv"]["op"].startswith("Sub"):
                     continue
-                c = s["rv"]["b"]
-                if c.get("k") != "const" or c.get("v") not in (0xD800, 0xDC00):
-                    continue
-                n += 1
                 st = iv.state_after(bi, si - 1) if si > 0 else dict(iv.entry.get(bi, {}))
-                v = iv.val(st, s["rv"]["a"]) if st is not None else None
-                base = c["v"]
-                want = [(base, base + 0x3FF)]
-                ok = v is not None and ival.subset(v, want)
-                shown = "unknown" if v is None else " ∪ ".join(f"[{lo:#x}, {hi:#x}]" for lo, hi in v)
-                which = "lead" if base == 0xD800 else "trail"
-                ctx.ob(f"pair-half:{which}", ok, site(b, line=s["line"]),
-                       f"{which} unit ∈ {shown}" + ("" if ok else f" — not confined to [{base:#x}, {base + 0x3ff:#x}]: an ill-formed pair would decode to a fabricated character instead of an error"))
-            # the same subtraction written through the operator trait (`unit - RANGE.start()` is `u16 - &u16`)
+                cv = iv.val(st, s["rv"]["b"]) if st is not None else None
+                if not (cv and len(cv) == 1 and cv[0][0] == cv[0][1]):
+                    continue
+                subs.append((s["line"], iv.val(st, s["rv"]["a"]) if st is not None else None, cv[0][0], b.local_ty(s["rv"]["a"]["p"]["l"]) if is_place(s["rv"]["a"]) else ""))
             t_ = b.blocks[bi]["term"]
             f_ = fn_of(t_) if t_["k"] == "call" else None
             if f_ and f_.get("trait") == "std::ops::Sub" and len(t_["args"]) == 2:
                 cv = iv.at_call(bi, t_["args"][1])
-                if cv and len(cv) == 1 and cv[0][0] == cv[0][1] and cv[0][0] in (0xD800, 0xDC00):
+                if cv and len(cv) == 1 and cv[0][0] == cv[0][1]:
+                    subs.append((t_.get("line"), iv.at_call(bi, t_["args"][0]), cv[0][0], b.local_ty(t_["args"][0]["p"]["l"]) if is_place(t_["args"][0]) else ""))
+        for line, v, base, aty in subs:
+            if line not in feeding0 or aty not in ("u16", "u32"):
+                continue
+            if base not in (0xD800, 0xDC00):
+                if aty == "u16":
                     n += 1
-                    base = cv[0][0]
-                    v = iv.at_call(bi, t_["args"][0])
-                    ok = bool(v) and ival.subset(v, [(base, base + 0x3FF)])
-                    shown = "unknown" if not v else " ∪ ".join(f"[{lo:#x}, {hi:#x}]" for lo, hi in v)
-                    which = "lead" if base == 0xD800 else "trail"
-                    ctx.ob(f"pair-half:{which}", ok, site(b, line=t_.get("line")),
-                           f"{which} unit ∈ {shown}" + ("" if ok else f" — not confined to [{base:#x}, {base + 0x3ff:#x}]: an ill-formed pair would decode to a fabricated character instead of an error"))
+                    ctx.ob(f"pair-half:base-{base:#x}", False, site(b, line=line), f"{base:#x} is subtracted from a UTF-16 unit on the way into the unchecked conversion: the surrogate bases are 0xD800 (lead) and 0xDC00 (trail)")
+                continue
+            n += 1
+            halves.add("lead" if base == 0xD800 else "trail")
+            ok = bool(v) and ival.subset(v, [(base, base + 0x3FF)])
+            shown = "unknown" if not v else " ∪ ".join(f"[{lo:#x}, {hi:#x}]" for lo, hi in v)
+            which = "lead" if base == 0xD800 else "trail"
+            ctx.ob(f"pair-half:{which}", ok, site(b, line=line),
+                   f"{which} unit ∈ {shown}" + ("" if ok else f" — not confined to [{base:#x}, {base + 0x3ff:#x}]: an ill-formed pair would decode to a fabricated character instead of an error"))
         # the combining arithmetic must be exact: no operation on the way to the unchecked conversion
         # may leave its type's range (a 16-bit shift of the lead offset silently drops plane bits)
         lines = set()
@@ -461,8 +465,8 @@ def r07_5(ctx):
         bad = [ln for ln in wl if ln in feeding]
         ctx.ob(f"pair-arithmetic-exact:{b.name}", not bad, site(b, line=bad[0] if bad else None),
                "no arithmetic feeding the unchecked conversions can wrap" if not bad else f"arithmetic at line(s) {bad} can exceed its integer type: the combined code point is truncated (characters above the affected plane decode to wrong characters)")
-    if n == 0:
-        ctx.ob("pair-halves", False, "lib", "no surrogate-pair combination found (unit - 0xD800 / unit - 0xDC00)")
+    if n == 0 or halves != {"lead", "trail"}:
+        ctx.ob("pair-halves", False, "lib", f"surrogate-pair combination incomplete: offsets found for {sorted(halves)} (expected unit - 0xD800 and unit - 0xDC00 feeding the unchecked conversion)")
 
 
 def _feeding_lines(b, sites):
